@@ -169,6 +169,18 @@ theorem C07_use_schema_qualified {D Q} (eng : D → Q → Except DuckExc D) (w :
       cases hr : runFollowups eng d c.followups with
       | mk d' oe => cases oe <;> simp
 
+/-- **Dropping the current schema leaves the session without one**: after a successful `DROP SCHEMA` of the session's current
+    schema the bookkeeping clears both the name and the flag, so every later statement that needs a current schema (an
+    unqualified table name) is refused with 90106/22000 before the engine sees it — it cannot create or touch anything — for
+    every engine; statements that need none are unaffected, and a `USE SCHEMA` restores normal service. -/
+theorem C07_drop_current_schema {D Q} (eng : D → Q → Except DuckExc D) (w : World D) (sess : Session) (cur : String) (c : Call Q)
+    (hcur : sess.schema = some cur) (hdb : sess.databaseSet = true) :
+    let sess' := (CtxUpdate.dropped false cur).apply sess
+    sess'.schemaSet = false ∧ sess'.schema = none ∧ sess'.databaseSet = true ∧
+    (c.noSchema = true → execCall eng { w with sess := sess' } c = ({ w with sess := sess' }, .programming c90106)) := by
+  refine ⟨by simp [CtxUpdate.apply, hcur], by simp [CtxUpdate.apply, hcur], by simp [CtxUpdate.apply, hcur, hdb], fun hns => ?_⟩
+  simp [execCall, CtxUpdate.apply, hcur, hdb, hns]
+
 /-! ### the cause × position table -/
 
 /-- the full statement over the scenario table: every way of referring to something missing or duplicate, at
